@@ -1,8 +1,9 @@
-/- driver for C01: `id <value>` -> calcId ; `text <value>` -> hex of canonical text ; `dump <value>` -> hex of insertion-order text ; `ftok <value>` -> are all float reprs float tokens (hypothesis of the injectivity theorems) -/
+/- driver for C01: `id <value>` -> calcId ; `text <value>` -> hex of canonical text ; `dump <value>` -> hex of insertion-order text ; `ftok <value>` -> are all float reprs float tokens (hypothesis of the injectivity theorems) ; `parse <hex of utf-8 text>` -> the model's JSON reader `parseText` on that text, result in wire form (floats as D0/0:<hex of token>, i.e. by their token text only: the reader is run with fv := fun _ => (0, 0)) or `parse-error` -/
 import Signac.Json
 import Signac.Md5
 import Signac.Wire
 import Signac.FloatTok
+import Signac.JsonParse
 open Signac
 
 def stepC01 (line : String) : String :=
@@ -23,6 +24,13 @@ def stepC01 (line : String) : String :=
     match parseValue ts with
     | some (v, []) => if floatsTokB v then "ok" else "not-a-float-token"
     | _ => "bad-value"
+  | "parse" :: [hx] =>
+    match unhex hx with
+    | some t =>
+      match parseText (fun _ => (0, 0)) t.toList with
+      | some v => wire v
+      | none => "parse-error"
+    | none => "bad-value"
   | "md5" :: [hx] =>
     match hexBytes hx.toList with
     | some bs => md5hex bs
